@@ -9,11 +9,16 @@ implementation's outputs; `mateFull` adds numpy's index rule for `xconfig` and t
 PybropsModel/Model/Pedigree.lean (`lineage`, the pedigree terms, the joint test `pedCheck`, `specMate`).
 Helper lemmas: PybropsModel/Lemmas/{MeiosisLoop,Mosaic,MosaicPath,Repeat,MatingStages,MatingProtocols,
 MatingSort,MatingSpec,MatingTotal,MatingFull,Pedigree,PedigreeSpec,PedCheck,PedCheckConv,SpecSound,
-SpecComplete,SpecCompleteMate,MatingOrder,DenseMate,UtilSpec,SpecIff,SpecCompleteSelf,SpecCompleteCex,MateHeap}.lean.
+SpecComplete,SpecCompleteMate,MatingOrder,DenseMate,UtilSpec,SpecIff,SpecCompleteSelf,SpecCompleteCex,MateHeap,
+CountProduct,MatingGroupMeta,Siblings,SpecCompleteSib}.lean.
 Round 3 adds: PybropsModel/Model/DenseMate.lean (buffer-level transcription of core/util/mate.py, section 1b),
 PybropsModel/Model/MateHeap.lean (the array traffic of `mate()` on a heap, section 2c); the row order for all
 counters (`order_characterised`); `spec_iff`; completeness of the Spec for the self / two-way protocols with up
 to two selfings and of the utility Specs; counterexamples showing the extra hypotheses are needed.
+
+Round 4 adds: the repaired per-cross product (section 2a, D70), the closed form of the progeny's taxa-group metadata
+(`family_group_metadata`), "all doubled haploids of one mating are gametes of ONE line" (`dh_siblings_share_line`) and the
+witness that this is more than the row-by-row Spec can see (`spec_complete_siblings_counterexample`).
 
 Conventions.  `mate … = .ok out` says the model accepts the input (rectangular diploid matrix,
 xconfig of the protocol's width, count arrays of length ncross, every selected index inside the
@@ -38,6 +43,9 @@ import PybropsModel.Lemmas.SpecCompleteSelf
 import PybropsModel.Lemmas.SpecCompleteCex
 import PybropsModel.Lemmas.MateHeap
 import PybropsModel.Lemmas.CountProduct
+import PybropsModel.Lemmas.MatingGroupMeta
+import PybropsModel.Lemmas.Siblings
+import PybropsModel.Lemmas.SpecCompleteSib
 set_option autoImplicit false
 set_option linter.unusedSectionVars false
 
@@ -185,6 +193,44 @@ theorem dh_homozygous (h : mate P pop xc nmating nprogeny nself xo pc fc draws =
   obtain ⟨_, _, _, _, _, hd⟩ := mate_rows h hnn r hr
   exact hd hP
 
+/-- **Doubled haploids of one mating are gametes of ONE line.**  Sharper than the row-by-row statements above: for
+    the three DH protocols there is a population `lines` with one individual per mating, each having the pedigree
+    that the corresponding non-DH protocol (`Proto.base`) prescribes for its cross (F1 / back-cross / dihybrid,
+    selfed `nself` times), such that — in generation order, of which `out.rows` is the `group_taxa()` arrangement —
+    progeny `k` is one gamete, doubled, of line `numpy.repeat(arange(nlines), numpy.repeat(nprogeny, nmating))[k]`:
+    the `nprogeny` doubled haploids of a mating all come from the same individual. -/
+theorem dh_siblings_share_line (h : mate P pop xc nmating nprogeny nself xo pc fc draws = .ok out)
+    (hnn : Nonneg draws) (hP : P.isDH = true) :
+    ∃ nm np prog lines, nmating.expand xc.length = .ok nm ∧ nprogeny.expand xc.length = .ok np ∧
+      out.rows = groupTaxa (genRows P prog pc (families P fc xc.length nm np)) ∧
+      PT lines (Np.repeatEach nm (xc.map (lineage xo P.base nself pop))) ∧
+      List.Forall₂ (DhOf xo lines) (Np.repeatEach (Np.repeatEach nm np) (Np.arange 0 lines.length)) prog := by
+  obtain ⟨nm, np, prog, hs, hnm, hnp, hgen, _, hrows, _, _⟩ := mate_inv h
+  obtain ⟨lines, pt, hall⟩ := siblings_ok P hP hs hnn hgen
+  exact ⟨nm, np, prog, lines, hnm, hnp, hrows, pt, hall⟩
+
+/-- **Back-cross progeny of one mating share the F1** (`ThreeWayCross`): there is a population `f1`, one individual per
+    mating, each a progeny of parents 1 x 2 of its cross, such that generation-order progeny `k` is — after `nself`
+    selfings of that one individual — a progeny of recurrent parent `repeat(xconfig[:,0], nmating*nprogeny)[k]` and of
+    F1 number `repeat(arange(nf1), repeat(nprogeny, nmating))[k]`. -/
+theorem threeWay_siblings_share_f1 (h : mate .threeWay pop xc nmating nprogeny nself xo pc fc draws = .ok out)
+    (hnn : Nonneg draws) :
+    ∃ nm np prog, nmating.expand xc.length = .ok nm ∧ nprogeny.expand xc.length = .ok np ∧
+      out.rows = groupTaxa (genRows .threeWay prog pc (families .threeWay fc xc.length nm np)) ∧
+      SibF1OK3 pop xc nm np nself xo prog := by
+  obtain ⟨nm, np, prog, hs, hnm, hnp, hgen, _, hrows, _, _⟩ := mate_inv h
+  exact ⟨nm, np, prog, hnm, hnp, hrows, siblings_threeWay (shaped_of_popShaped hs) hnn hgen⟩
+
+/-- **Four-way progeny of one mating share both F1s** (`FourWayCross`): populations `ab` (parents 2 x 3) and `cd`
+    (parents 0 x 1), one individual of each per mating; progeny `k` descends from `ab[sel[k]] x cd[sel[k]]`. -/
+theorem fourWay_siblings_share_f1 (h : mate .fourWay pop xc nmating nprogeny nself xo pc fc draws = .ok out)
+    (hnn : Nonneg draws) :
+    ∃ nm np prog, nmating.expand xc.length = .ok nm ∧ nprogeny.expand xc.length = .ok np ∧
+      out.rows = groupTaxa (genRows .fourWay prog pc (families .fourWay fc xc.length nm np)) ∧
+      SibF1OK4 pop xc nm np nself xo prog := by
+  obtain ⟨nm, np, prog, hs, hnm, hnp, hgen, _, hrows, _, _⟩ := mate_inv h
+  exact ⟨nm, np, prog, hnm, hnp, hrows, siblings_fourWay (shaped_of_popShaped hs) hnn hgen⟩
+
 /-- The number of progeny is `Σ nmating_i · nprogeny_i`. -/
 theorem progeny_count (h : mate P pop xc nmating nprogeny nself xo pc fc draws = .ok out) :
     ∃ nm np, nmating.expand xc.length = .ok nm ∧ nprogeny.expand xc.length = .ok np ∧
@@ -200,6 +246,23 @@ theorem family_labels (h : mate P pop xc nmating nprogeny nself xo pc fc draws =
       out.rows.map Row.grp = Np.repeatEach (List.zipWith (· * ·) nm np) (Np.arange fc xc.length) := by
   obtain ⟨nm, np, h1, h2, _, hg, _⟩ := mate_labels h
   exact ⟨nm, np, h1, h2, hg⟩
+
+/-- **Taxa-group metadata of the progeny matrix** (`taxa_grp_name`, `taxa_grp_stix`, `taxa_grp_len`; `taxa_grp_spix`
+    = start + length), which `group_taxa()` obtains from `numpy.unique(taxa_grp, return_index, return_counts)`: in
+    closed form (`Mating.runsOfCounts`) there is exactly one entry per cross that HAS progeny, in configuration
+    order: family number `family_counter + i`, start = the number of progeny of the earlier crosses, length =
+    `nmating_i · nprogeny_i` — for every protocol, every counter value and every draw. -/
+theorem family_group_metadata (h : mate P pop xc nmating nprogeny nself xo pc fc draws = .ok out) :
+    ∃ nm np, nmating.expand xc.length = .ok nm ∧ nprogeny.expand xc.length = .ok np ∧
+      let per := List.zipWith (· * ·) nm np
+      out.grpMeta = runsOfCounts 0 per (Np.arange fc xc.length) ∧
+      ∀ e ∈ out.grpMeta, ∃ i, i < per.length ∧ (Np.arange fc xc.length)[i]? = some e.1 ∧ per[i]? = some e.2.2 ∧
+        0 < e.2.2 ∧ e.2.1 = 0 + (per.take i).sum := by
+  obtain ⟨nm, np, h1, h2, hg⟩ := mate_grpMeta_closed h
+  refine ⟨nm, np, h1, h2, hg, ?_⟩
+  intro e he
+  rw [hg] at he
+  exact mem_runsOfCounts _ _ 0 e he
 
 /-- Both counters advance by exactly the numbers produced. -/
 theorem counters_advance (h : mate P pop xc nmating nprogeny nself xo pc fc draws = .ok out) :
@@ -275,27 +338,50 @@ theorem order_preserved_counterexample :
       ≠ (Np.arange 9999998 4).map (name [50, 119]) := by
   decide +kernel
 
-/-! ## 2a. Count arrays of a narrow integer dtype (finding D70) -/
+/-! ## 2a. Count arrays of a narrow integer dtype (defect D70, repaired) -/
 
-/-- `SelfCross`, `TwoWayCross` and `ThreeWayCross` compute `nmating * nprogeny` in the dtype of the count arrays.
-    While every per-cross product stays below the dtype's limit (`2^(bits-1)` signed, `2^bits` unsigned) that
-    product is the exact one, and the theorems of section 2 (stated over ℕ) describe the real code.
+/-- **Per-cross product, repaired code.**  `SelfCross`, `TwoWayCross` and `ThreeWayCross` form
+    `nxprogeny = numpy.multiply(nmating, nprogeny, dtype = "int64")` (`Mating.countProduct`).  For count arrays of
+    every integer dtype of at most 32 bits (`int8`, `uint8`, `int16`, `uint16`, `int32`: every count `< 2^31`; the
+    other array may be `uint32`) that product is the exact one — no hypothesis on the products — so the theorems of
+    section 2 (stated over ℕ) describe the real code for all such counts. -/
+theorem count_product_exact (nm np : List Nat) (hnm : ∀ a ∈ nm, a < 2 ^ 31) (hnp : ∀ b ∈ np, b < 2 ^ 32) :
+    countProduct nm np = (List.zipWith (fun (x y : Nat) => x * y) nm np).map (fun (n : Nat) => (n : Int)) :=
+  countProduct_exact_narrow nm np hnm hnp
 
-    FULL STATEMENT (false of the code as it is, see `count_product_wraps_counterexample`):
-      countProductAsIs bits signed nm np = (zipWith (·*·) nm np).map Int.ofNat   for all nm np. -/
-theorem count_product_exact_partial (bits : Nat) (signed : Bool) (nm np : List Nat)
-    (h : ∀ p ∈ List.zip nm np, p.1 * p.2 < 2 ^ (bits - (if signed then 1 else 0))) :
-    countProductAsIs bits signed nm np = (List.zipWith (fun (x y : Nat) => x * y) nm np).map (fun (n : Nat) => (n : Int)) :=
-  countProductAsIs_exact bits signed nm np h
+/-- 64-bit counts: exact while every per-cross product is below `2^63`, i.e. while the progeny of one cross could be
+    the rows of a numpy array at all.
 
-/-- uint8 counts 20 matings x 13 progeny: the code sees 4 progeny instead of 260; int8 16 x 16: none at all;
-    int8 12 x 11: a negative repeat count (numpy raises).  Replayed on the real `SelfCross` / `TwoWayCross` /
-    `ThreeWayCross` by the corpus cases of finding D70. -/
-theorem count_product_wraps_counterexample :
-    countProductAsIs 8 false [20] [13] = [4] ∧ countProductAsIs 8 true [16] [16] = [0] ∧
-    countProductAsIs 8 true [12] [11] = [-124] ∧ (20 * 13 : Nat) = 260 := by decide
+    FULL STATEMENT (false, see `count_product_int64_counterexample`; not reachable by a call that could succeed: the
+    exact product is then not an array length):
+      countProduct nm np = (zipWith (·*·) nm np).map Int.ofNat   for all nm np. -/
+theorem count_product_exact_int64_partial (nm np : List Nat) (h : ∀ p ∈ List.zip nm np, p.1 * p.2 < 2 ^ 63) :
+    countProduct nm np = (List.zipWith (fun (x y : Nat) => x * y) nm np).map (fun (n : Nat) => (n : Int)) :=
+  countProduct_exact_of_lt nm np h
 
+/-- int64 itself wraps: `2^32` matings x `2^32` progeny -> 0 (and `2^32 x 2^31` -> `-2^63`, which numpy.repeat rejects) -/
+theorem count_product_int64_counterexample :
+    countProduct [2 ^ 32] [2 ^ 32] = [0] ∧ countProduct [2 ^ 32] [2 ^ 31] = [-(2 ^ 63 : Int)] := by decide
+
+/-- **Before the repair** the product was formed in the dtype of the count arrays: uint8 counts 20 matings x 13 progeny:
+    the code saw 4 progeny instead of 260; int8 16 x 16: none at all; int8 12 x 11: a negative repeat count (numpy
+    raises); the repaired product is right on all three.  The corpus cases `D70 regression` replay these on the
+    real `SelfCross` / `TwoWayCross` / `ThreeWayCross`, where they must now pass. -/
+theorem count_product_prerepair_counterexample :
+    countProductPrerepair 8 false [20] [13] = [4] ∧ countProductPrerepair 8 true [16] [16] = [0] ∧
+    countProductPrerepair 8 true [12] [11] = [-124] ∧
+    countProduct [20] [13] = [260] ∧ countProduct [16] [16] = [256] ∧ countProduct [12] [11] = [132] := by decide
+
+/-- The repair changes nothing where the old code was right: whenever no per-cross product reached the limit of the
+    count dtype, the old product is the int64 product. -/
+theorem count_product_repair_conservative (bits : Nat) (signed : Bool) (hb : bits - (if signed then 1 else 0) ≤ 63)
+    (nm np : List Nat) (h : ∀ p ∈ List.zip nm np, p.1 * p.2 < 2 ^ (bits - (if signed then 1 else 0))) :
+    countProductPrerepair bits signed nm np = countProduct nm np :=
+  countProduct_agrees_prerepair bits signed hb nm np h
+
+example : (∀ a ∈ [20, 127, 255], a < 2 ^ 31) ∧ (∀ b ∈ [13, 127, 255], b < 2 ^ 32) := by decide
 example : ∀ p ∈ List.zip [3, 2] [4, 60], p.1 * p.2 < 2 ^ (8 - (if true then 1 else 0)) := by decide
+example : countProduct [20, 127, 255] [13, 127, 255] = [260, 16129, 65025] := by decide
 
 /-! ## 2b. The public call: marker metadata and numpy's index rule -/
 
@@ -520,7 +606,8 @@ theorem spec_complete_twoWay_partial {ρ' : Type} [LinearOrder ρ'] [Zero ρ'] {
     * with `xoprob[0] = 0` the model never starts a gamete on copy 1 (`gamete_start_counterexample`);
     * for the five protocols in which several progeny share one intermediate hybrid (DH lines of one mating,
       back-cross / four-way progeny of one F1) the Spec judges rows one by one and does not demand that siblings
-      share the hybrid; and beyond two selfings it has only the per-copy test. -/
+      share the hybrid (`spec_complete_siblings_counterexample`); and beyond two selfings it has only the per-copy
+      test. -/
 theorem spec_complete_selfed_partial {ρ' : Type} [LinearOrder ρ'] [Zero ρ'] {P : Proto} (hP : P = .self ∨ P = .twoWay)
     {pop : Pop α} {xc : List (List Nat)} {nmating nprogeny : Cnt} {nself : Nat} {xo : List ρ'} {pc fc : Nat} {out : Out α}
     (hn : nself ≤ jointDepth) (hs : popShaped pop xo.length = true) (hw : ∀ r ∈ xc, r.length = P.nparent)
@@ -574,6 +661,18 @@ theorem gamete_start_counterexample :
     Mosaic (ρ := Int) [[1], [2]] [0] ([2] : List Int) ∧
     ∀ r : List Int, (∀ y ∈ r, (0 : Int) ≤ y) → gamete (([1], [2]) : Ind Int) (xoMask r [0]) ≠ [2] :=
   ⟨cexStart_mosaic, cexStart_unreachable⟩
+
+/-- In the protocols where several progeny share one intermediate individual the Spec (like the property statement)
+    judges the progeny one by one and is strictly weaker than the model: both copies of the female, each doubled,
+    pass `specMate` as the two doubled haploids of ONE two-way mating (no crossover possible between the two markers),
+    but the model returns them for no non-negative draws — its hybrid carries one gamete of the female
+    (`dh_siblings_share_line`).  So the completeness theorems cannot be extended to the DH / three-way / four-way
+    protocols without strengthening the Spec beyond the statement. -/
+theorem spec_complete_siblings_counterexample :
+    (specMate (ρ := Int) .twoWayDH sibPop [[0, 1]] (.scalar 1) (.scalar 2) 0 [1, 0] 0 0 sibOut).1 = true ∧
+    ∀ (draws : List (DrawMat Int)) (out' : Out Int), Nonneg draws →
+      mate .twoWayDH sibPop [[0, 1]] (.scalar 1) (.scalar 2) 0 [1, 0] 0 0 draws = .ok out' → out'.rows ≠ sibOut.rows :=
+  ⟨sibOut_spec, sibOut_unreachable⟩
 
 /-! ## Non-vacuity: every protocol accepts a concrete input with crossovers, selfing and array counts -/
 
@@ -630,6 +729,11 @@ example : ∀ x, demoXo.head? = some x → 0 < x := by intro x h; simp [demoXo] 
 example : ∀ r ∈ ([[0, 1]] : List (List Nat)), r.length = 2 := by decide
 example : ∀ k, k < Proto.threeWay.nparent → ([0, 1, 2] : List Nat).getD k 0 < demoPop.length := by decide
 
+/-- group metadata of a two-way call with an empty middle cross: families 7 and 9, starts 0 and 2, lengths 2 and 3 -/
+example : (mate .twoWay demoPop [[0, 1], [2, 3], [1, 0]] (.arr [2, 0, 1]) (.arr [1, 5, 3]) 0 demoXo 0 7
+    (List.replicate 2 (demoDraw 5))).toOption.map (·.grpMeta) = some [(7, 0, 2), (9, 2, 3)] := by decide +kernel
+example : runsOfCounts 0 [2, 0, 3] (Np.arange 7 3) = [(7, 0, 2), (9, 2, 3)] := by decide
+example : Proto.twoWayDH.isDH = true ∧ Proto.threeWayDH.base = .threeWay := by decide
 /-- the last taxon addressed as `-1`; an index below `-ntaxa` is rejected when it is used -/
 example : wrapConfig 4 [[-1, 0], [3, -4]] = [[3, 0], [3, 0]] := by decide
 example : accepted ((mateFull (μ := Nat) .twoWay demoPop ⟨some 1, none, none, none, some 2, none, some 3, some 4, none, none, none, none, none⟩
